@@ -847,7 +847,7 @@ def supported(name, nq, s1, s2):
     return name in TWO_Q_CZ or name in ("Unitary", "GeneralizedfSim")
 
 
-def search_one(ctx, build, code, sname, ns, must=None, tol=1e-7, broken=None):
+def search_one(ctx, build, code, sname, ns, must=None, tol=1e-7, broken=None, broken_raise=None):
     """property check of one translate_gate call on the real code.  Returns (key, observed)
     of the failure reported, or (None, None)."""
     gates, D, U = modules()
@@ -866,7 +866,7 @@ def search_one(ctx, build, code, sname, ns, must=None, tol=1e-7, broken=None):
             if name in ("Unitary", "fSim", "GeneralizedfSim") and len(g.qubits) == 2 and is_magic_basis_refusal(e):
                 key = KAK_KNOWN_KEY
             ctx.fail(key, f"translate_gate({code}, {flag_names(ns)}) raises {type(e).__name__}: {e} but the class is in the translation tables of this native set",
-                     py + "out = translate_gate(g, ns)\n", observed=f"{type(e).__name__}: {e}", broken=broken)
+                     py + "out = translate_gate(g, ns)\n", observed=f"{type(e).__name__}: {e}", broken=broken_raise or broken)
             return key, f"{type(e).__name__}"
         ctx.stat("refused")
         return None, None
@@ -1007,14 +1007,15 @@ def unitary_search(ctx):
                      REPLAY_PRE + f"from qibo.transpiler.unitary_decompositions import two_qubit_decomposition\nM = {Mc}\n"
                      f"gl = two_qubit_decomposition({q[0]}, {q[1]}, M.astype(complex), backend=nb)\n"
                      f"assert phase_equal(full(gl, {n}), full([gates.Unitary(M, *{list(q)})], {n}), 1e-6)\n",
-                     observed=str(err) if err else "wrong operator", broken=["C10_search_unitary"])
+                     observed=str(err) if err else "wrong operator",
+                     broken=["C10_search_unitary_translatable" if err else "C10_search_unitary_operator"])
         chosen = [s for s in sets if s[3] != ("CNOT",)]
         if not ctx.thorough:
             chosen = rng.sample(chosen, 2)
         for sname, ns, s1, s2 in chosen:
             ctx.case(("unitary2q", label, sname))
             search_one(ctx, (lambda M=M, q=q: gates.Unitary(np.array(M, dtype=complex), *q)), f"gates.Unitary({Mc}, *{list(q)})",
-                       sname, ns, must=True, tol=1e-6, broken=["C10_search_unitary"])
+                       sname, ns, must=True, tol=1e-6, broken=["C10_search_unitary_operator"], broken_raise=["C10_search_unitary_translatable"])
     for label, M in mats1:
         q = rng.choice([0, 1, 2])
         Mc = f"np.array({np.asarray(M).tolist()})"
@@ -1029,11 +1030,11 @@ def unitary_search(ctx):
             ctx.fail(f"zyz:{label.rstrip('0123456789')}", f"u3_decomposition of '{label}' " + (f"raises {err}" if err else "does not reproduce the unitary up to a phase"),
                      REPLAY_PRE + f"from qibo.transpiler.unitary_decompositions import u3_decomposition\nM = {Mc}\n"
                      "t, p, l = u3_decomposition(M.astype(complex), nb)\nassert phase_equal(gates.U3(0, t, p, l).matrix(nb), M, 1e-7)\n",
-                     broken=["C10_search_unitary"])
+                     broken=["C10_search_unitary_translatable" if err else "C10_search_unitary_operator"])
         for sname, ns, s1, s2 in (sets if ctx.thorough else rng.sample(sets, 2)):
             ctx.case(("unitary1q", label, sname))
             search_one(ctx, (lambda M=M, q=q: gates.Unitary(np.array(M, dtype=complex), q)), f"gates.Unitary({Mc}, {q})",
-                       sname, ns, must=True, tol=1e-7, broken=["C10_search_unitary"])
+                       sname, ns, must=True, tol=1e-7, broken=["C10_search_unitary_operator"], broken_raise=["C10_search_unitary_translatable"])
     # GeneralizedfSim (matrix-valued table entry)
     for sname, ns, s1, s2 in sets:
         if s2 == ("CNOT",):
@@ -1043,8 +1044,11 @@ def unitary_search(ctx):
         q = rng.choice([(0, 1), (1, 0), (2, 0)])
         search_one(ctx, (lambda u=u, phi=phi, q=q: gates.GeneralizedfSim(q[0], q[1], np.array(u), phi)),
                    f"gates.GeneralizedfSim({q[0]}, {q[1]}, np.array({u.tolist()}), {phi})", sname, ns, must=True, tol=1e-6,
-                   broken=["C10_search_unitary"])
-    ctx.ob("C10_search_unitary", len(ctx.failures) == before, "search", "" if len(ctx.failures) == before else "failing inputs found")
+                   broken=["C10_search_unitary_operator"], broken_raise=["C10_search_unitary_translatable"])
+    new = ctx.failures[before:]
+    for obn in ("C10_search_unitary_translatable", "C10_search_unitary_operator"):
+        hit = [f["key"] for f in new if obn in f["broken"]]
+        ctx.ob(obn, not hit, "search", "" if not hit else "failing inputs found: " + ", ".join(hit[:4]))
 
 
 def circuit_check(ctx, n, recipe, sname, ns, broken=None):
@@ -1157,17 +1161,30 @@ def selfcheck(ctx):
 
 
 def run(ctx):
+    import time
+
     MODULES, THEOREMS = registry(PROP)
     ctx.theorems = THEOREMS
+    t = [time.time()]
+
+    def lap(name):
+        t.append(time.time())
+        ctx.stats["seconds_" + name] = round(t[-1] - t[-2], 1)
+
     selfcheck(ctx)
     raised = trace_obligations(ctx)
+    lap("trace_and_stage1")
     xmods, xnames = extra_generated(ctx)
     build_and_audit(ctx, PROP, MODULES + xmods, THEOREMS, gen_obs=True, extra_audit=xnames)
+    lap("kernel_and_audit")
     shapes = correspondence(ctx)
     unroll_correspondence(ctx, shapes)
+    lap("correspondence")
     gate_search(ctx, raised)
+    lap("gate_search")
     unitary_search(ctx)
     circuit_search(ctx)
+    lap("unitary_circuit_search")
     ctx.trusted.append("LAPACK eig/qr/svd inside two_qubit_decomposition and np.angle/arctan2 inside u3_decomposition are oracles: "
                        "their results are checked numerically (1e-6) on the seeded corpus, not proved")
     ctx.notes.append("kernel obligations for all parameter values: every entry of the six translation tables and the real translate_gate "
